@@ -302,13 +302,16 @@ def container_checks(chk, ctx, decs):
                detail={'expected': '4 + length, or the cursor that the loop '
                        'ran up to it'}, site=site)
         # loop body: element decoding at the cursor
-        v0 = lp['start_env'].get(cursor.args[0].args[1]) if isinstance(
-            cursor, Sym) and cursor.op == 'typed' else None
+        v0 = _cursor_start(lp, cursor)
+        if v0 is None:
+            chk.undecide('C03.C', kind + ' reader element',
+                         'the loop condition %s does not compare a cursor '
+                         'the analysis tracks' % T.show(test)[:80])
+            continue
         body_ok = bool(lp['conts'])
         facts = []
         for o in lp['conts']:
-            name = cursor.args[0].args[1]
-            v1 = o.state.env.get(name)
+            v1 = _cursor_after(o, cursor)
             delta = T.sub(v1, v0)
             if kind == 'table':
                 # key: u8 length at cursor, utf-8 key after it
@@ -476,3 +479,25 @@ def refusal_checks(chk, ctx):
                     '/'.join(sorted(kinds)), T.show(g)[:80]),
                     site=o.exc.site)
     chk.floor('C03.A', 20, 'explicit refusals classified', count=n)
+
+
+def _cursor_start(lp, cursor):
+    """Value of the loop cursor at the head of the abstract iteration: a
+    local integer variable or an integer attribute of an object."""
+    if not (isinstance(cursor, Sym) and cursor.op == 'typed' and
+            isinstance(cursor.args[0], Sym)):
+        return None
+    c = cursor.args[0]
+    if c.op == 'loopvar':
+        return lp['start_env'].get(c.args[1])
+    if c.op == 'loopattr':
+        return (lp.get('start_attrs') or {}).get((c.args[1], c.args[2]))
+    return None
+
+
+def _cursor_after(o, cursor):
+    c = cursor.args[0]
+    if c.op == 'loopvar':
+        return o.state.env.get(c.args[1])
+    ob = o.state.store.get(c.args[1])
+    return getattr(ob, 'attrs', {}).get(c.args[2])
